@@ -21,12 +21,13 @@ func match(doc, filter types.Value) (bool, error) {
 		}
 
 		if !strings.HasPrefix(key.String(), "$") {
-			d, ok := doc.(types.Map)
-			if !ok {
-				return false, errors.WithMessagef(ErrUnsupportedType, "doc: %v", doc.Interface())
+			// A field of a missing or non-map parent is absent.
+			var child types.Value
+			if d, ok := doc.(types.Map); ok {
+				child = d.Get(key)
 			}
 
-			ok, err := match(d.Get(key), value)
+			ok, err := match(child, value)
 			if err != nil {
 				return false, err
 			}
